@@ -105,7 +105,7 @@ theorem FromHunks.sub {s : Store} {xs ys : List IndexEntry} (hy : FromHunks s ys
     FromHunks s xs := fun e he => hy e (h e he)
 
 theorem readHunk_spec (s : Store) (b n : Nat) :
-    ROSpec s (readHunk b n) (fun r => ∀ es, r = some es → hunkAt s b n = some es) := by
+    ROSpec s (readHunk b n) (fun r => ∀ es, r = some es → hunkAt s b n = some es ∨ es = []) := by
   unfold readHunk
   simp only [Prog.bind_def, Prog.pure_def]
   refine ROSpec.bind (ROSpec.read s _) (fun r hr => ?_)
@@ -116,8 +116,12 @@ theorem readHunk_spec (s : Store) (b n : Nat) :
     split
     · refine ROSpec.ret (fun es' h => ?_)
       cases h
+      left
       simp [hunkAt, hr _ rfl]
     · exact ROSpec.fail
+  · refine ROSpec.ret (fun es' h => ?_)
+    cases h
+    right; rfl
   · exact ROSpec.fail
   · exact ROSpec.fail
 
@@ -137,7 +141,10 @@ theorem readHunks_spec (s : Store) (b : Nat) (ns : List Nat) (after last : Optio
     · exact ROSpec.ret (FromHunks.nil s)
     · exact ROSpec.emit (ROSpec.bind (Q1 := fun _ => True) (ROSpec.ret trivial) (fun _ _ => ih _ _))
     · rename_i es
-      have hes : FromHunks s es := fun e he => ⟨b, n, es, hr _ rfl es rfl, he⟩
+      have hes : FromHunks s es := fun e he => by
+        rcases hr _ rfl es rfl with h | h
+        · exact ⟨b, n, es, h, he⟩
+        · subst h; cases he
       have htrim : ∀ a, FromHunks s (trimAfter a es) := fun a =>
         hes.sub fun e he => (List.dropWhile_sublist _).subset he
       repeat (first
